@@ -381,9 +381,28 @@ def check_match_record(cx: Cx, ob: Ob) -> None:
                 ob.violate(fn.qualname, fn.where, f"comparison external.{a[1]} ~ record.{b[1]} does not use the caller's case_sensitive", detail=f"case:{a[1]}~{b[1]}")
         else:
             ob.violate(fn.qualname, fn.where, f"comparison external.{a[1]} ~ record.{b[1]} uses `{how}` and ignores case_sensitive", detail=f"raw-compare:{a[1]}~{b[1]}")
+    # comparisons delegated to a helper the engine does not see through (generator, loop-with-return)
+    from ..summ import KNOWN_FUNCTIONS
+
+    opaque = []
+    for t, ev, ctx in s.all_terms():
+        for c in subterms(t):
+            if op(c) != "call":
+                continue
+            q = None
+            if op(c[1]) == "func":
+                q = c[1][1]
+            elif op(c[1]) == "attr" and c[1][1] in (me, ("param", "cls")):
+                m2 = cx.model.find_method(fn.cls, c[1][2]) if fn.cls is not None else None
+                q = m2.qualname if m2 is not None else None
+            if q is not None and q not in KNOWN_FUNCTIONS and q.rsplit(".", 1)[-1] not in ("_eq", "_in") and any(x == ext or x == recv for a in (*c[2], *(v for _, v in c[3])) for x in subterms(a)):
+                opaque.append(q)
     for side in (CURIE_SIDE, URI_SIDE):
         need = {(f, g) for f in side for g in side}
         missing = need - seen
+        if missing and opaque:
+            ob.undecide(f"_match_record delegates comparisons to `{opaque[0]}`, which is not analysed; cover {sorted(missing)} not established")
+            continue
         if missing:
             ob.violate(
                 fn.qualname,
@@ -394,26 +413,124 @@ def check_match_record(cx: Cx, ob: Ob) -> None:
     cross = {k for k in seen if (k[0] in CURIE_SIDE) != (k[1] in CURIE_SIDE)}
     for a, b in sorted(cross):
         ob.violate(fn.qualname, fn.where, f"_match_record compares external.{a} with record.{b} across sides", detail=f"cross-side:{a}~{b}")
-    # helper semantics
+    # helper semantics: decision table over (raw equality E, case-folded equality F, flag C), E => F
+    check_compare_helpers(cx, ob)
+
+
+def _fold_of(t, x):
+    return op(t) == "call" and op(t[1]) == "attr" and t[1][2] == "casefold" and t[1][1] == x and not t[2]
+
+
+def _weak_fold(t):
+    return op(t) == "call" and op(t[1]) == "attr" and t[1][2] in ("lower", "upper") and not t[2]
+
+
+class _Unknown(Exception):
+    pass
+
+
+def _bool_eval(t, atom, env):
+    """Evaluate a boolean term under an assignment of the recognised atoms."""
+    o = op(t)
+    if o == "const" and isinstance(t[1], bool):
+        return t[1]
+    if o in ("not",):
+        return not _bool_eval(t[1], atom, env)
+    if o == "truth":
+        return _bool_eval(t[1], atom, env)
+    if o == "and":
+        return all(_bool_eval(x, atom, env) for x in t[1])
+    if o == "or":
+        return any(_bool_eval(x, atom, env) for x in t[1])
+    if o == "ifexp":
+        return _bool_eval(t[2], atom, env) if _bool_eval(t[1], atom, env) else _bool_eval(t[3], atom, env)
+    if o == "call" and t[1] == ("builtin", "bool") and len(t[2]) == 1:
+        return _bool_eval(t[2][0], atom, env)
+    if o == "cmp" and t[1] in ("!=", "not in"):
+        return not _bool_eval(("cmp", {"!=": "==", "not in": "in"}[t[1]], t[2], t[3]), atom, env)
+    a = atom(t)
+    if a is None:
+        raise _Unknown(show(t)[:60])
+    return env[a]
+
+
+def check_compare_helpers(cx: Cx, ob: Ob) -> None:
     for name in ("_eq", "_in"):
         h = cx.model.functions.get(f"{API}.{name}")
         if h is None:
             ob.undecide(f"{name} helper not found")
             continue
         hs = cx.summary(h, ob.id)
-        ob.site(f"{h.where} {h.qualname}", "comparison helper")
-        if not any(g.kind == "guard" and g.a == ("param", "case_sensitive") for _, ctx in hs.returns() for g in ctx.guards):
-            ob.violate(h.qualname, h.where, f"{name} ignores its case_sensitive argument", detail="ignores-case-flag")
-        for t, ctx in hs.returns():
-            cs = [g for g in ctx.guards if g.kind == "guard" and g.a == ("param", "case_sensitive")]
-            if cs and cs[0].b is True:
-                folded = any(callee_name(x) in ("casefold", "lower", "upper") for x in subterms(t) if op(x) == "call")
-                if folded:
-                    ob.violate(h.qualname, where(h, ctx.path.out[2]), f"{name} folds case although case_sensitive is true", detail="folds-when-sensitive")
-            elif cs and cs[0].b is False:
-                n_fold = sum(1 for x in subterms(t) if op(x) == "call" and callee_name(x) in ("casefold", "lower", "upper"))
-                if n_fold < 2:
-                    ob.violate(h.qualname, where(h, ctx.path.out[2]), f"{name} does not fold case on both operands when case_sensitive is false", detail="no-fold")
+        ob.site(f"{h.where} {h.qualname}", "comparison helper (decision table)")
+        if len(h.params) < 3:
+            ob.undecide(f"{name} does not take (a, b, case_sensitive)")
+            continue
+        A, Bp, C = (("param", p.name) for p in h.params[:3])
+
+        def atom(t, A=A, Bp=Bp, C=C, name=name):
+            if t == C:
+                return "C"
+            if name == "_eq":
+                if op(t) == "cmp" and t[1] == "==":
+                    l, r = t[2], t[3]
+                    if {l, r} == {A, Bp}:
+                        return "E"
+                    if (_fold_of(l, A) and _fold_of(r, Bp)) or (_fold_of(l, Bp) and _fold_of(r, A)):
+                        return "F"
+                return None
+            # _in
+            if op(t) == "cmp" and t[1] == "in" and t[2] == A and t[3] == Bp:
+                return "E"
+            if op(t) == "call" and t[1] == ("builtin", "any") and len(t[2]) == 1 and op(t[2][0]) == "comp" and len(t[2][0][3]) == 1:
+                comp = t[2][0]
+                tgt, it, ifs = comp[3][0]
+                e = comp[2]
+                if it == Bp and not ifs and op(e) == "cmp" and e[1] == "==":
+                    l, r = e[2], e[3]
+                    if (_fold_of(l, A) and _fold_of(r, tgt)) or (_fold_of(r, A) and _fold_of(l, tgt)):
+                        return "F"
+                    if {l, r} == {A, tgt}:
+                        return "E"
+            if op(t) == "cmp" and t[1] == "in" and _fold_of(t[2], A):
+                c = t[3]
+                if op(c) == "call" and c[1] in (("builtin", "set"), ("builtin", "list"), ("builtin", "tuple"), ("builtin", "frozenset")) and len(c[2]) == 1:
+                    c = c[2][0]
+                if op(c) == "comp" and len(c[3]) == 1 and c[3][0][1] == Bp and not c[3][0][2] and _fold_of(c[2], c[3][0][0]):
+                    return "F"
+            return None
+
+        bad = None
+        try:
+            for E in (False, True):
+                for F in (False, True):
+                    if E and not F:
+                        continue  # equal strings have equal case-folds
+                    for Cv in (False, True):
+                        env = {"E": E, "F": F, "C": Cv}
+                        got = None
+                        for t, ctx in hs.returns():
+                            if all(_bool_eval(g.a, atom, env) == g.b for g in ctx.guards if g.kind == "guard"):
+                                got = _bool_eval(t, atom, env)
+                                break
+                        want = E if Cv else F
+                        if got is None:
+                            raise _Unknown("no return reached")
+                        if got != want and bad is None:
+                            bad = (env, got, want)
+        except _Unknown as e:
+            weak = any(_weak_fold(x) for t, _, _ in hs.all_terms() for x in subterms(t))
+            ob.undecide(f"{name}: term `{e}` not recognised" + (" (lower()/upper() is not case folding: 'ß' vs 'ss')" if weak else ""))
+            continue
+        if bad is not None:
+            env, got, want = bad
+            what = "the strings are equal" if env["E"] else ("they differ only by case" if env["F"] else "they differ")
+            ob.violate(
+                h.qualname,
+                h.where,
+                f"{name} answers {got} where {want} is required: case_sensitive={env['C']} and {what}",
+                witness=f"decision table row E(raw equal)={env['E']} F(case-folded equal)={env['F']} C(case_sensitive)={env['C']}",
+                detail="decision-table:" + ("ignores-case-flag" if env["C"] and got != want and not env["E"] else "no-fold" if not env["C"] else "wrong"),
+            )
 
 
 @obligation("C05-D7", "state closure: all derived converter state is maintained by _index; query methods write no state", floor=5)
